@@ -4,7 +4,7 @@
 //! deviation); this one takes one construct at a time and makes it long or
 //! wide: a chain of N operands, N statements, N fields, N variants, N arms, N
 //! parameters, N functions, N nested blocks. The oracle is the same (a package
-//! or a report, the process survives), plus a wall-clock and address-space cap
+//! or a report, the process survives), plus a CPU-time and address-space cap
 //! per input, which is how "hangs" is decided: every construct of the list
 //! compiles in well under a second at N = 1000 on a correct tree, so a compile
 //! that is still running after the cap — or that needs more than 6 GiB — has
@@ -63,7 +63,7 @@ pub const REPEATERS: &[(&str, Kind, bool, Gen)] = &[
     ("chain:&&", Kind::Wide, true, |n| format!("fn f(b: bool) -> bool {{ {} }}", rep(n + 1, " && ", |_| "b".into()))),
     ("chain:||", Kind::Wide, true, |n| format!("fn f(b: bool) -> bool {{ {} }}", rep(n + 1, " || ", |_| "b".into()))),
     ("chain:&&||", Kind::Wide, true, |n| {
-        format!("fn f(b: bool) -> bool {{ {} }}", rep(n + 1, " || ", |i| if i % 2 == 0 { "b && b".into() } else { "b".into() }))
+        format!("fn f(b: bool) -> bool {{ {} }}", rep(n + 1, " || ", |i| if i % 2 == 0 { "(b && b)".into() } else { "b".into() }))
     }),
     ("chain:+*", Kind::Wide, true, |n| {
         format!("fn f(x: i64) -> i64 {{ x{} }}", rep(n, "", |i| if i % 2 == 0 { " + x".into() } else { " * x".into() }))
@@ -98,7 +98,7 @@ pub const REPEATERS: &[(&str, Kind, bool, Gen)] = &[
     ("chain:unary-minus", Kind::Deep, true, |n| format!("fn f(x: i32) -> i32 {{ {}x }}", rep(n, "", |_| "- ".into()))),
     ("chain:not", Kind::Deep, true, |n| format!("fn f(b: bool) -> bool {{ {}b }}", rep(n, "", |_| "!".into()))),
     ("chain:question-mark", Kind::Wide, true, |n| {
-        format!("fn g(x: i32) -> i32? {{ Option.Some(x) }}\nfn f(x: i32) -> i32? {{ {} Option.Some(x) }}", rep(n, " ", |_| "let x = g(x)?;".into()))
+        format!("fn g(x: i32) -> i32? {{ Option.Some(x) }}\nfn f(x0: i32) -> i32? {{ {} Option.Some(x{n}) }}", rep(n, " ", |i| format!("let x{} = g(x{})?;", i + 1, i)))
     }),
     // ---- nesting
     ("nest:parens", Kind::Deep, true, |n| format!("fn f() -> i32 {{ {}1{} }}", "(".repeat(n), ")".repeat(n))),
@@ -134,7 +134,7 @@ pub const REPEATERS: &[(&str, Kind, bool, Gen)] = &[
     }),
     // ---- wide declarations
     ("wide:lets", Kind::Wide, true, |n| format!("fn f() -> i32 {{ {} v0 }}", rep(n, " ", |i| format!("let v{i} = {};", i % 100)))),
-    ("wide:let-shadow", Kind::Wide, true, |n| format!("fn f() -> i32 {{ let v = 0; {} v }}", rep(n, " ", |_| "let v = v + 1;".into()))),
+    ("wide:let-shadow", Kind::Wide, false, |n| format!("fn f() -> i32 {{ let v = 0; {} v }}", rep(n, " ", |_| "let v = v + 1;".into()))),
     ("wide:assignments", Kind::Wide, true, |n| format!("fn f() -> i32 {{ let v = 0; {} v }}", rep(n, " ", |_| "v = v + 1;".into()))),
     ("wide:string-lets", Kind::Wide, true, |n| {
         format!("fn f() -> String {{ {} \"z\" }}", rep(n, " ", |i| format!("let v{i} = \"s\" + \"t\";")))
@@ -214,7 +214,7 @@ pub const REPEATERS: &[(&str, Kind, bool, Gen)] = &[
         )
     }),
     ("wide:guarded-arms", Kind::Wide, true, |n| {
-        format!("fn f(o: i32?) -> i32 {{ match o {{ {}, Some(x) => x, None => 0 }} }}", rep(n, ", ", |i| format!("Some(x) | x == {i} => {i}")))
+        format!("fn f(o: i32?) -> i32 {{ match o {{ {}, Some(x) => x, None => 0 }} }}", rep(n, ", ", |i| format!("Some(x) if x == {i} => {i}")))
     }),
     ("wide:repeated-arms", Kind::Wide, true, |n| {
         format!("fn f(o: i32?) -> i32 {{ match o {{ {}, None => 0 }} }}", rep(n, ", ", |i| format!("Some(x) => {i}")))
@@ -225,7 +225,7 @@ pub const REPEATERS: &[(&str, Kind, bool, Gen)] = &[
     ("wide:list-literal", Kind::Wide, true, |n| format!("fn f() -> List[i32] {{ [{}] }}", rep(n, ", ", |i| format!("{}", i % 100)))),
     ("wide:string-list-literal", Kind::Wide, true, |n| format!("fn f() -> List[String] {{ [{}] }}", rep(n, ", ", |_| "\"s\"".into()))),
     ("wide:fstring-parts", Kind::Wide, true, |n| format!("fn f(x: i32) -> String {{ f\"{}\" }}", rep(n, "", |_| "a{x}".into()))),
-    ("wide:imports", Kind::Wide, true, |n| format!("{}\nfn f() {{ }}", rep(n, "\n", |_| "import std.u8.max;".into()))),
+    ("wide:imports", Kind::Wide, false, |n| format!("{}\nfn f() {{ }}", rep(n, "\n", |_| "import String.append;".into()))),
     ("wide:import-list", Kind::Wide, false, |n| format!("import std.{{{}}};", rep(n, ", ", |_| "u8".into()))),
     ("wide:returns", Kind::Wide, false, |n| format!("fn f() -> i32 {{ {} }}", rep(n, " ", |i| format!("return {i};")))),
     ("wide:ifs-with-return", Kind::Wide, true, |n| {
@@ -243,9 +243,9 @@ pub const REPEATERS: &[(&str, Kind, bool, Gen)] = &[
     ("long:float", Kind::Wide, false, |n| format!("fn f() -> f64 {{ 1.{} }}", "9".repeat(n))),
     ("long:float-int-part", Kind::Wide, false, |n| format!("fn f() -> f64 {{ {}.0 }}", "9".repeat(n))),
     ("long:hex", Kind::Wide, false, |n| format!("fn f() -> u64 {{ 0x{} }}", "f".repeat(n))),
-    ("long:comment", Kind::Wide, true, |n| format!("# {}\nfn f() {{ }}", "é".repeat(n))),
-    ("long:comment-lines", Kind::Wide, true, |n| format!("{}fn f() {{ }}", "# c\n".repeat(n))),
-    ("long:blank-lines", Kind::Wide, true, |n| format!("{}fn f() -> i32 {{ true }}", "\n".repeat(n))),
+    ("long:comment", Kind::Wide, true, |n| format!("// {}\nfn f() {{ }}", "é".repeat(n))),
+    ("long:comment-lines", Kind::Wide, true, |n| format!("{}fn f() {{ }}", "// c\n".repeat(n))),
+    ("long:blank-lines", Kind::Wide, false, |n| format!("{}fn f() -> i32 {{ true }}", "\n".repeat(n))),
     ("long:path", Kind::Wide, false, |n| format!("fn f() {{ a{}; }}", ".b".repeat(n))),
     ("long:super-path", Kind::Wide, false, |n| format!("fn f() {{ {}x; }}", "super.".repeat(n))),
     ("long:semicolons", Kind::Wide, false, |n| format!("fn f() {{ 1{} }}", ";".repeat(n))),
@@ -295,15 +295,21 @@ pub fn bounds(cfg: &Cfg) -> Value {
         "repeaters": REPEATERS.len(),
         "counts_for_wide_repeaters": sizes(cfg, Kind::Wide),
         "depths_for_deep_repeaters": sizes(cfg, Kind::Deep),
-        "per_input_wall_cap_s": wall_cap_s(cfg),
+        "per_input_cpu_cap_s": cpu_cap_s(cfg),
+        "per_input_wall_backstop_s": WALL_BACKSTOP_S,
         "per_input_address_space_cap_bytes": AS_CAP,
         "repeater_names": REPEATERS.iter().map(|r| r.0).collect::<Vec<_>>(),
     })
 }
 
-pub fn wall_cap_s(cfg: &Cfg) -> f64 {
-    cfg.tier.pick(10.0, 30.0)
+/// CPU seconds one input may use (RLIMIT_CPU of the forked child, whose CPU
+/// clock starts at zero): independent of the load of the machine
+pub fn cpu_cap_s(cfg: &Cfg) -> u64 {
+    cfg.tier.pick(5, 15)
 }
+
+/// wall-clock backstop for a child that neither finishes nor uses CPU
+pub const WALL_BACKSTOP_S: f64 = 600.0;
 
 /// address-space cap of the forked child that compiles an L6 input
 pub const AS_CAP: u64 = 6 << 30;
